@@ -10,6 +10,12 @@ if os.path.exists("/tmp/seedres/summary.txt"):
         m = re.match(r"(C\d\d) (m\d) \| (.*?) \| (.*)", l)
         if m:
             res[(m.group(1), m.group(2))] = (m.group(3).strip(), m.group(4).strip())
+res2 = {}
+if os.path.exists("/tmp/seedres2/summary.txt"):
+    for l in open("/tmp/seedres2/summary.txt"):
+        m = re.match(r"(C\d\d) (m\d) \| (.*?) \| (.*)", l)
+        if m:
+            res2[(m.group(1), m.group(2))] = (m.group(3).strip(), m.group(4).strip())
 for sid, e in cat.items():
     src = e["src"]
     if not os.path.isdir(src):
@@ -20,7 +26,7 @@ for sid, e in cat.items():
         if os.path.exists(os.path.join(src, f)):
             shutil.copy(os.path.join(src, f), os.path.join(dst, f))
     prop, mk = e["property"], os.path.basename(src)
-    conf, run = res.get((prop, mk), ("", ""))
+    conf, run = (res2 if "seedout2" in src else res).get((prop, mk), ("", ""))
     meta_p = os.path.join(dst, "meta.json")
     meta = json.load(open(meta_p)) if os.path.exists(meta_p) else {}
     meta.update({"id": sid, "property": prop, "summary": e["summary"], "needs_to_manifest": e["needs"],
